@@ -654,3 +654,18 @@ package syntax
 //@ func syntax.RefExp.equal property C15
 //@   requires !isnil(syntax.notEqualError)
 //@   ensures @sameref exp != nil && isnil(result) ==> istype(other, ptr_syntax.RefExp) && as(other, ptr_syntax.RefExp) != nil && as(other, ptr_syntax.RefExp).Kind == exp.Kind && as(other, ptr_syntax.RefExp).Id == exp.Id && as(other, ptr_syntax.RefExp).OutputId == exp.OutputId
+
+// ---------------------------------------------------------------- C09 nothing is written after a wildcard binding
+// The compiler expands `* = X` in place: the synthesized bindings FOLLOW the wildcard entry in
+// the list.  The formatter writes the bindings up to and including the wildcard and none after
+// it (bfmt[b] counts BindStm.format calls on b), so the rendered text of a compiled program
+// (the include-expanded source mrp records) still parses.
+//@ func syntax.BindStm.format property C09
+//@   trusted
+//@   effect bfmt self
+//@ func syntax.BindStms.format property C09
+//@   requires self != nil && forall j :: 0 <= j && j < len(self.List) ==> self.List[j] != nil
+//@   ensures @stopatwildcard forall i, j :: 0 <= i && i < j && j < len(self.List) && self.List[i].Id == "*" && (forall q :: 0 <= q && q < len(self.List) && q != j ==> self.List[q] != self.List[j]) ==> ghost(bfmt)[self.List[j]] == old(ghost(bfmt)[self.List[j]])
+//@   loop 1 invariant ghost(bfmt) == old(ghost(bfmt))
+//@   loop 2 invariant 0 <= iter && iter <= len(self.List) && (forall q :: 0 <= q && q < iter ==> self.List[q].Id != "*")
+//@   loop 2 invariant forall b *syntax.BindStm :: ghost(bfmt)[b] != old(ghost(bfmt)[b]) ==> exists q :: 0 <= q && q < iter && self.List[q] == b
